@@ -43,7 +43,7 @@ pub open spec fn oic_spec(offered: Seq<HTLCInfo2>, received: Seq<HTLCInfo2>) -> 
     offered.map(|i: int, h: HTLCInfo2| oic_of(h, true)) + received.map(|i: int, h: HTLCInfo2| oic_of(h, false))
 }
 pub open spec fn htlcs_msat_fit(s: Seq<HTLCInfo2>) -> bool {
-    forall|i: int| 0 <= i < s.len() ==> (#[trigger] s[i]).value_sat * 1000 <= u64::MAX
+    s.len() <= 0xffff_ffff && forall|i: int| 0 <= i < s.len() ==> (#[trigger] s[i]).value_sat * 1000 <= u64::MAX
 }
 
 pub open spec fn htlc_sig_valid(ckeys: InMemorySigner, setup: ChannelSetup, point: PublicKey, txkeys: TxCreationKeys, feerate: u32, ctx: CommitmentTransaction,
@@ -91,13 +91,14 @@ pub open spec fn info2_built(r: CommitmentInfo2, is_cp: bool, to_countersigner: 
 {
     r.is_counterparty_broadcaster == is_cp && r.to_countersigner_value_sat == to_countersigner
     && r.to_broadcaster_value_sat == to_broadcaster && r.feerate_per_kw == feerate
-    && r.offered_htlcs@.to_multiset() == offered.to_multiset()
-    && r.received_htlcs@.to_multiset() == received.to_multiset()
+    && r.offered_htlcs@.to_multiset() == offered.to_multiset() && r.offered_htlcs@.len() == offered.len()
+    && r.received_htlcs@.to_multiset() == received.to_multiset() && r.received_htlcs@.len() == received.len()
 }
 pub proof fn lemma_msat_fit_multiset(a: Seq<HTLCInfo2>, b: Seq<HTLCInfo2>)
     requires a.to_multiset() == b.to_multiset(), htlcs_msat_fit(a),
     ensures htlcs_msat_fit(b),
 {
+    a.to_multiset_ensures(); b.to_multiset_ensures();
     assert forall|i: int| 0 <= i < b.len() implies (#[trigger] b[i]).value_sat * 1000 <= u64::MAX by {
         broadcast use vstd::seq_lib::group_seq_properties;
         b.to_multiset_ensures();
